@@ -16,6 +16,7 @@ RULE = ('ulist: random lists of hashable elements x operators (+ | - &) x (eleme
         '(present/absent/mixed) x (-, &, [list], [k1,k2], +, |, relabel, attribute access); Dict.__call__: random dependency graphs over <=6 derived keys '
         '(acyclic and cyclic, some redefining existing keys), EVERY keyword order of each graph (<=720); non-trivial = ulist operand with a duplicate or an '
         'absent element, key selection mixing present and absent keys, graph with >=1 derived->derived edge; distinct = canonical hash (call cases: graph + order)')
+RULE_ALSO = '; added by the coverage audit and round 8: keys called self, ulist results edited in place, values of other dict subclasses under + / |, None held next to parameters with defaults'
 ASSUMPTIONS = ['NaN elements are not generated for ulist', 'tuple keys (branch deletion) and dotted keys are not generated', 'd + other is checked against {**d, **o} on non-dict values only (nested merge is C15)',
                'self-loops in Dict.__call__ graphs are not generated', 'the right operand of + / | is a plain dict, dictattr or Dict (tree_update treats other subclasses as leaves by design)', 'keys do not start with _ and do not shadow dict methods']
 
